@@ -7,6 +7,8 @@ from soundevent.evaluation.encoding import create_tag_encoder
 from soundevent.evaluation.tasks import clip_classification as cc
 from soundevent.evaluation.tasks import sound_event_classification as sec
 from soundevent.terms import metrics as terms
+import numpy as np
+from sklearn import metrics as sk
 
 
 class TrueClassProbability:
@@ -101,3 +103,53 @@ class EvaluateClassifiedSoundEvent:
         return (m.source == sound_event_prediction and m.target == sound_event_annotation
                 and len(m.metrics) == 1 and m.metrics[0].term == terms.true_class_probability and m.metrics[0].value == p
                 and m.score == p)
+
+
+# ---- the accuracy family: unlabelled items form an extra 'none' class ------------------------------------------------
+def with_none_class(y_score):
+    """the score matrix with one more column: the probability mass the prediction leaves for 'no class'"""
+    return np.c_[y_score, 1 - y_score.sum(axis=1, keepdims=True)]
+
+
+def truth_with_none(y_true, num_classes):
+    """unlabelled items get the index of the extra class"""
+    return np.array([num_classes if y is None else y for y in y_true])
+
+
+def predicted_with_none(y_score):
+    return with_none_class(y_score).argmax(axis=1)
+
+
+class Accuracy:
+    target = "soundevent.evaluation.metrics:accuracy"
+    types = {"y_true": "List[Optional[int]]", "y_score": "SMatrix"}
+
+    def requires(y_true, y_score):
+        return len(y_true) == y_score.shape[0]
+
+    def ensures(y_true, y_score, result):
+        return result == sk.accuracy_score(y_true=truth_with_none(y_true, y_score.shape[1]), y_pred=predicted_with_none(y_score))
+
+
+class BalancedAccuracy:
+    target = "soundevent.evaluation.metrics:balanced_accuracy"
+    types = {"y_true": "List[Optional[int]]", "y_score": "SMatrix"}
+
+    def requires(y_true, y_score):
+        return len(y_true) == y_score.shape[0]
+
+    def ensures(y_true, y_score, result):
+        return result == sk.balanced_accuracy_score(y_true=truth_with_none(y_true, y_score.shape[1]), y_pred=predicted_with_none(y_score))
+
+
+class Top3Accuracy:
+    target = "soundevent.evaluation.metrics:top_3_accuracy"
+    types = {"y_true": "List[Optional[int]]", "y_score": "SMatrix"}
+
+    def requires(y_true, y_score):
+        return len(y_true) == y_score.shape[0]
+
+    def ensures(y_true, y_score, result):
+        m = y_score.shape[1]
+        return result == sk.top_k_accuracy_score(y_true=truth_with_none(y_true, m), y_score=with_none_class(y_score), k=3,
+                                                 normalize=True, labels=list(range(m + 1)))
